@@ -168,6 +168,17 @@ Theorem C03_int_range_flagged :
 Proof. exact int_range_flagged. Qed.
 Print Assumptions C03_int_range_flagged.
 
+(** Field Selection Merging (5.3.2) is not implemented by check and is not among the rules of the property text:
+    documents violating it satisfy all twenty rules, are accepted, and make `generate` panic (C08_merge_unchecked_refuted;
+    C03/GenerateSafe.v). [fields_can_merge_ok] is the spec-side rule (Spec.v), marked "not implemented by nitrogql". *)
+Theorem C03_fields_can_merge_not_checked :
+  check_operation_document w_schema_0 w_doc_18 = [] /\ spec_valid w_schema_0 w_doc_18 = true
+  /\ fields_can_merge_ok w_schema_0 w_doc_18 = false
+  /\ check_operation_document w_schema_0 w_doc_19 = [] /\ fields_can_merge_ok w_schema_0 w_doc_19 = false
+  /\ fields_can_merge_ok w_schema_0 w_doc_14 = true.
+Proof. exact fields_can_merge_not_checked. Qed.
+Print Assumptions C03_fields_can_merge_not_checked.
+
 Theorem C03_custom_scalar_variable_refuted :
   exists S D, check_operation_document S D = [] /\ rule_ok S D R_vars_defined = false.
 Proof. exists w_schema_0, w_doc_3. exact custom_scalar_variable_refuted. Qed.
